@@ -38,13 +38,16 @@ def h2a(P):
     return fn
 
 
-def h2b(F, maxsep):
+def h2b(F, maxsep, wide_upto=None):
+    """F code points per field for lines with at most `wide_upto` separators (all of them if
+    None), 1 code point per field beyond that (such lines cannot decode: they are only there for
+    totality)."""
     def fn(w):
         from mysensors.message import Message
         nsep = w.choose(maxsep + 1, "separators")
         fields = []
         for i in range(nsep + 1):
-            f_ = w.fresh_str(f"f{i}", F)
+            f_ = w.fresh_str(f"f{i}", F if wide_upto is None or nsep <= wide_upto else 1)
             if w.symbolic:
                 for c in f_.cs:
                     w.p.add(z3.Not(c == 59))  # the separator count is enumerated, not the field content
@@ -144,8 +147,9 @@ def build(tier):
     hs = [
         Harness("H2a-encode-decode", h2a(P), {"payload_atoms_max": P, "ints": "unbounded"},
                 goals=["roundtrip"], doc="decode(encode(m)) == m for wire-carriable payloads"),
-        Harness("H2b-decode-canonical", h2b(F, 7),
-                {"separators": "0..7", "field_code_points_max": F,
+        Harness("H2b-decode-canonical", h2b(F, 7, None if q else 5),
+                {"separators": "0..7", "field_code_points_max": F if q else "2 (1 beyond 5 "
+                 "separators)",
                  "terminators": ["\\n", "", "\\r\\n", " \\n"]},
                 goals=["accepted", "rejected"],
                 doc="every raw line: ValueError or canonical, idempotent re-encode"),
